@@ -58,9 +58,9 @@ func cloneNode(n *yaml.Node) *yaml.Node {
 
 // ---- node constructors
 
-func plain(v string) *yaml.Node  { return &yaml.Node{Kind: yaml.ScalarNode, Value: v} }
-func str(v string) *yaml.Node    { return &yaml.Node{Kind: yaml.ScalarNode, Tag: "!!str", Value: v} }
-func null() *yaml.Node           { return &yaml.Node{Kind: yaml.ScalarNode, Tag: "!!null", Value: ""} }
+func plain(v string) *yaml.Node { return &yaml.Node{Kind: yaml.ScalarNode, Value: v} }
+func str(v string) *yaml.Node   { return &yaml.Node{Kind: yaml.ScalarNode, Tag: "!!str", Value: v} }
+func null() *yaml.Node          { return &yaml.Node{Kind: yaml.ScalarNode, Tag: "!!null", Value: ""} }
 func seqOf(e ...*yaml.Node) *yaml.Node {
 	return &yaml.Node{Kind: yaml.SequenceNode, Tag: "!!seq", Content: e}
 }
@@ -155,11 +155,29 @@ func scalarKinds(orig *yaml.Node) []scalarKind {
 	return kinds
 }
 
+// applicable says whether a scalar kind family is enumerated at a leaf role in the quick tier (thorough: everything
+// everywhere). At a leaf that is an enumeration (type, messageMode) or a free list of strings every string kind is the
+// same "unknown name"; at a leaf that names a schema field the pattern and unit kinds are again just unknown names.
+func applicable(leaf, family string) bool {
+	if !strings.HasPrefix(family, "scalar:") {
+		return true
+	}
+	switch leaf {
+	case "type", "messageMode", "hiddenFields[]", "levelMapping[]", "tls":
+		return family == "scalar:generic"
+	case "key", "destKey", "field", "fields[]", "keys[]", "metricKeys[]", "environmentFields[]":
+		return family == "scalar:generic" || family == "scalar:template" || family == "scalar:number"
+	}
+	return true
+}
+
 type walker struct {
 	base    *baseFile
 	root    *yaml.Node // document node of the base
 	emit    func(m mutant)
-	wantDoc func(id string) bool // false: the caller will skip this mutant, do not build the tree
+	wantDoc func(id string) bool   // false: the caller will skip this mutant, do not build the tree
+	filter  func(kind string) bool // nil or: which kinds to produce
+	byRole  bool                   // quick tier: scalar kind families by leaf role (see applicable)
 }
 
 func (w *walker) inFocus(path string) bool {
@@ -191,6 +209,12 @@ func (w *walker) mutate(idx []int, edit func(parent *yaml.Node, i int)) *yaml.No
 }
 
 func (w *walker) out(prefix, path, kind, family, leaf string, idx []int, edit func(parent *yaml.Node, i int)) {
+	if w.filter != nil && !w.filter(kind) {
+		return
+	}
+	if w.byRole && !applicable(leaf, family) {
+		return
+	}
 	m := mutant{id: prefix + ":" + path + "|" + kind, family: family, leaf: leaf}
 	if w.wantDoc(m.id) {
 		m.doc = w.mutate(idx, edit)
@@ -343,8 +367,8 @@ func (w *walker) valueSite(n *yaml.Node, idx []int, path, leaf string, underMatc
 }
 
 // enumerateMutants walks the base and calls emit for every (site, kind) in a fixed order.
-func enumerateMutants(b *baseFile, root *yaml.Node, wantDoc func(id string) bool, emit func(m mutant)) {
-	w := &walker{base: b, root: root, emit: emit, wantDoc: wantDoc}
+func enumerateMutants(b *baseFile, root *yaml.Node, byRole bool, filter func(kind string) bool, wantDoc func(id string) bool, emit func(m mutant)) {
+	w := &walker{base: b, root: root, emit: emit, wantDoc: wantDoc, filter: filter, byRole: byRole}
 	top := root.Content[0]
 	w.walk(top, []int{0}, "", "", false)
 }
